@@ -188,7 +188,10 @@ def _in_constraints(it, name):
              ('favourite_colour', it.fresh_str('unknown_metadata'))))
     it.ghost['ifd'] = dict(is_date=is_date, form=form, bound=bound, prec=prec, max_nulls=f['max_nulls'],
                            n_records=md['n_records'], user=md['user'])
-    return OD((('fields', OD((('fld', f),))), ('creation_metadata', md)))
+    # a second field whose name begins with '#': field names are data, only constraint kinds can be comments
+    g = OD((('type', 'int'), ('max_nulls', it.fresh(T.int, 'hash_field_max_nulls'))))
+    it.ghost['ifd']['hash_max_nulls'] = g['max_nulls']
+    return OD((('fields', OD((('fld', f), ('#fld', g)))), ('creation_metadata', md)))
 
 
 @specfn
@@ -227,6 +230,9 @@ contract(BASE + 'DatasetConstraints.initialize_from_dict', props=['C09'],
                    "self.fields['fld'].constraints['min'].precision == (ifd('prec') if ifd('form') == 1 else None)"),
                   ('known-creation-metadata-kept-whatever-its-value-zero-and-empty-included',
                    "stored(self, 'n_records') == ifd('n_records') and stored(self, 'user') == ifd('user')"),
+                  ('a-field-is-kept-whatever-its-name-begins-with',
+                   "list(self.fields.keys()) == ['fld', '#fld'] and "
+                   "self.fields['#fld'].constraints['max_nulls'].value is ifd('hash_max_nulls')"),
                   ('null-and-unknown-metadata-not-stored',
                    "not hasattr(self, 'host') and not hasattr(self, 'favourite_colour')")])
 
